@@ -282,6 +282,20 @@ def check(case, rec=None):
             c.angles(route, cf.tth, cf.eta)
             c.ds(route, cf.ds)
             c.g(route, np.array([cf.gx, cf.gy, cf.gz]).T)
+    # ---- (iii-c) a Ctransform object re-targeted to other parameters: pars updated, reset() called
+    ok, ct2 = guard(transform.Ctransform, pA)
+    if ok:
+        for k_ in ct2.pnames:
+            ct2.pars[k_] = pk[k_]
+        ok, e = guard(ct2.reset)
+        if ok:
+            ok, g2 = guard(ct2.sf2gv, sc, fc, om, *t)
+            if ok:
+                c.g("Ctransform after pars update + reset()", g2)
+            else:
+                c.fails.append(exc_failure("Ctransform.sf2gv after reset", g2))
+        else:
+            c.fails.append(exc_failure("Ctransform.reset", e))
     # ---- (iv) numba copy (no omegasign: compared on the omega it is given; xpos folded into distance)
     if sc.dtype.kind == "i":
         if rec is not None:
